@@ -8,6 +8,10 @@ Schedule clauses decided structurally (for every completion order of the decode 
               no other blocking call is reachable.
   R-ONCE      each popped, successfully decoded image is pushed onto layers[0].sixels exactly once, after the shadow-removal
               loop; R-SHADOW: after removing a shadowed image the same index is examined again.
+  R-ARRIVAL   the list of images on a layer (`Layer.sixels`) is only ever changed by order-preserving operations (push, remove,
+              retain, pop, clear, truncate - never swap_remove / swap / sort / reverse / insert / rotate), crate-wide and on the
+              alias `update_sixel_threads` works through; and no code reachable from a text parser's print_char appends to it:
+              an image decoded from the stream reaches the screen through the queue only.
 Not decided: that the pixel data is width*height*4 bytes (value-level; a known genuine defect of this clause is described in DESIGN §6)."""
 from analysis import facts as F
 from analysis import cg as CG
@@ -55,7 +59,7 @@ def innermost_loop(b, block):
 
 def run(chk):
     f = F.load()
-    chk.rules = ["R-FIFO", "R-NONBLOCK", "R-ONCE", "R-SHADOW"]
+    chk.rules = ["R-FIFO", "R-NONBLOCK", "R-ONCE", "R-SHADOW", "R-ARRIVAL"]
     chk.assumptions = ["std::collections::VecDeque, std::thread::JoinHandle behave as documented (is_finished does not block; join on a finished thread returns at once)",
                        "the rectangle clause (width x height x 4 bytes) is not decided by this check"]
     # ------------------------------------------------------------------ R-FIFO
@@ -269,6 +273,7 @@ def run(chk):
                             what="after vec.remove(i) the index is advanced before the element that moved into slot i was examined (every second shadowed image survives)")
     chk.floor("R-ONCE", "shadow-removal sites", len(removes), 1)
     chk.sample("update_sixel_threads: %d front, %d is_finished, %d pop_front, %d join, %d push, %d remove" % (len(fronts), len(finished), len(pops), len(joins), len(pushes), len(removes)))
+    arrival_order(chk, f, b)
     # ------------------------------------------------------------------ a decode that panics loses its image
     from rules import panic_common as P
     pf = f.method("sixel_mod::Sixel", "parse_from")
@@ -281,3 +286,68 @@ def run(chk):
                       "Buffer::update_sixel_threads checked for non-blocking polling and exactly-once delivery; %d bodies reachable from the poll scanned for blocking calls."
                       " R-PANIC over the decode thread body (Sixel::parse_from): a panicking decode would lose its image."
                       % (len(ops), ", ".join(names), len(reach)), reviewed=reviewed)
+
+
+# ===================================================================================================== R-ARRIVAL
+ORDER_SAFE = {"push", "remove", "retain", "retain_mut", "pop", "clear", "truncate", "len", "is_empty", "iter", "iter_mut", "into_iter", "index", "index_mut",
+              "get", "get_mut", "first", "last", "first_mut", "last_mut", "clone", "eq", "ne", "new", "deref", "deref_mut", "as_slice", "as_mut_slice",
+              "capacity", "reserve", "with_capacity", "extend", "append", "fmt", "drop"}
+
+
+def _alias_of_field(b, op, name, depth=0):
+    """is the operand a local that holds (a reborrow of) a reference to a place ending in field `name`?"""
+    pj = op.get("move") or op.get("copy")
+    if pj is None or depth > 4:
+        return False
+    if any(el != "*" and el[0] == "f" and el[2] == name for el in (pj.get("p") or ())):
+        return True
+    ds = b.defs.get(pj["l"], [])
+    if len(ds) != 1 or ds[0][1] == "term":
+        return False
+    s = b.blocks[ds[0][0]]["stmts"][ds[0][1]]
+    rv = s["rv"]
+    if rv["k"] == "ref":
+        q = rv["p"]
+        if any(el != "*" and el[0] == "f" and el[2] == name for el in (q.get("p") or ())):
+            return True
+        return _alias_of_field(b, {"copy": {"l": q["l"]}}, name, depth + 1) if all(el == "*" for el in (q.get("p") or ())) else False
+    if rv["k"] == "use":
+        return _alias_of_field(b, rv["a"], name, depth + 1)
+    return False
+
+
+def arrival_order(chk, f, poll):
+    ops = []
+    for b in f.bodies.values():
+        if b.kind not in ("fn", "method", "closure"):
+            continue
+        eb = None
+        for bi, t in b.calls():
+            if not t["args"]:
+                continue
+            path0 = t["callee"].get("resolved") or t["callee"].get("path") or ""
+            if "sixels" not in str(t["args"]) and not any("sixels" in str(s) for s in b.blocks[bi]["stmts"]) and "std::vec::Vec::<T" not in path0:
+                continue
+            eb = eb or ExprBuilder(b)
+            if field_of(eb.operand(t["args"][0])) == "sixels" or _alias_of_field(b, t["args"][0], "sixels"):
+                path = t["callee"].get("resolved") or t["callee"].get("path") or "?"
+                ops.append((b, t, path.split("::")[-1], path))
+    chk.floor("R-ARRIVAL", "operations on the image list", len(ops), 12)
+    for b, t, nm, path in ops:
+        ok = nm in ORDER_SAFE
+        chk.obligation(ok)
+        if not ok:
+            chk.finding("%s|image-list-op|%s" % (b.short(), nm), rule="R-ARRIVAL", where="%s:%s" % (b.file, t.get("line")), fn=b.short(),
+                        what="`%s` on the layer's image list does not keep the remaining images in arrival order (allowed: push, remove, retain, pop, clear, truncate and read-only access)" % path)
+    # who may append: nothing reachable from a text parser
+    from analysis import roots as R
+    g = CG.CallGraph(f)
+    reach = set(g.reachable([r for r in R.txt_roots(f) if r in f.bodies]))
+    chk.floor("R-ARRIVAL", "bodies reachable from the text parsers", len(reach), 200)
+    for b, t, nm, path in ops:
+        if nm in ("push", "extend", "append", "insert") and b.id in reach:
+            chk.obligation(False)
+            chk.finding("%s|image-list-append" % b.short(), rule="R-ARRIVAL", where="%s:%s" % (b.file, t.get("line")), fn=b.short(),
+                        what="code reachable from a text parser's print_char appends to the layer's image list directly: the image overtakes those still waiting in the decode queue")
+        elif nm in ("push", "extend", "append", "insert"):
+            chk.obligation(True)
